@@ -487,7 +487,7 @@ def run_for_property(prop, tier, seed, plan, env):
         if tier == "quick" and len(modules) > 2:
             cap = 5000
         elif tier == "thorough":
-            cap = 40000 if len(modules) > 2 else 120000
+            cap = 20000 if len(modules) > 2 else 100000
         jobs = []
         for b, vs in by_build.items():
             if cap and len(vs) > cap:
